@@ -315,7 +315,7 @@ impl Property for C07 {
         Some("entry-point x authoriser matrix (17 x 8) x {with,without} counterparty allowance enumerated completely; amounts sampled")
     }
     fn cases(&self, tier: Tier) -> u64 {
-        tier.pick(3000, 40000)
+        tier.pick(8000, 60000)
     }
     fn strategy(&self, _tier: Tier) -> BoxedStrategy<Case> {
         (prop::sample::select(EPS.to_vec()), prop::sample::select(PRINCIPALS.to_vec()), any::<bool>(), 1u8..40, prop_oneof![3 => Just(false), 1 => Just(true)], prop_oneof![3 => Just(false), 1 => Just(true)])
